@@ -1048,6 +1048,9 @@ func buildResObj(params map[string]any, parentKeys []string, key string, schema 
 		if additPropsSchema != nil {
 			// dynamic creation of possibly nested objects
 			for k := range objectParams {
+				if _, declared := schema.Value.Properties[k]; declared {
+					continue // decoded above, by its own schema
+				}
 				r, err := buildResObj(params, mapKeys, k, additPropsSchema)
 				if err != nil {
 					return nil, err
